@@ -502,6 +502,105 @@ def _iter_while_to_for(tree: ast.AST) -> None:
     ast.fix_missing_locations(tree)
 
 
+def _bounded_flag_while(tree: ast.AST) -> None:
+    """`flag = False; k = 0; while not flag and k < N: k += 1; BODY` where BODY sets `flag = True` only as the last thing an
+    iteration does is `for _ in range(N): k += 1; BODY` with a `break` after every `flag = True` (N an integer constant: a literal
+    or a module-level / local name bound once to an integer literal).  The flag and the counter stay as they are, so code after
+    the loop reads the same values."""
+    mod_ints = {}
+    if isinstance(tree, ast.Module):
+        for st in tree.body:
+            if isinstance(st, ast.Assign) and len(st.targets) == 1 and isinstance(st.targets[0], ast.Name) and isinstance(st.value, ast.Constant) \
+                    and type(st.value.value) is int:
+                mod_ints[st.targets[0].id] = mod_ints.get(st.targets[0].id, 0) + 1
+            elif isinstance(st, ast.AnnAssign) and isinstance(st.target, ast.Name) and isinstance(st.value, ast.Constant) and type(st.value.value) is int:
+                mod_ints[st.target.id] = mod_ints.get(st.target.id, 0) + 1
+    mod_stores = {}
+    for x in ast.walk(tree):
+        if isinstance(x, ast.Name) and isinstance(x.ctx, ast.Store):
+            mod_stores[x.id] = mod_stores.get(x.id, 0) + 1
+
+    def stores(fn, name):
+        return [n for n in ast.walk(fn) if isinstance(n, ast.Name) and n.id == name and isinstance(n.ctx, (ast.Store, ast.Del))]
+
+    def int_bound(fn, e) -> bool:
+        if isinstance(e, ast.Constant):
+            return type(e.value) is int
+        if isinstance(e, ast.Name):
+            loc = stores(fn, e.id)
+            if not loc:
+                return mod_ints.get(e.id) == 1 and mod_stores.get(e.id) == 1 and e.id not in {a.arg for a in fn.args.args + fn.args.kwonlyargs + fn.args.posonlyargs}
+            if len(loc) == 1:
+                for st in ast.walk(fn):
+                    if isinstance(st, ast.Assign) and len(st.targets) == 1 and st.targets[0] is loc[0]:
+                        return isinstance(st.value, ast.Constant) and type(st.value.value) is int
+        return False
+
+    def tails(block):
+        """the statements that can be the last thing executed by the block (None if the block's end is reached some other way)"""
+        if not block:
+            return []
+        last = block[-1]
+        if isinstance(last, ast.If):
+            return tails(last.body) + tails(last.orelse)
+        return [(block, len(block) - 1)]
+
+    def process(fn, block) -> bool:
+        for k, lp in enumerate(block):
+            if not (isinstance(lp, ast.While) and not lp.orelse and isinstance(lp.test, ast.BoolOp) and isinstance(lp.test.op, ast.And) and len(lp.test.values) == 2):
+                continue
+            flag = cnt = bound = None
+            for v in lp.test.values:
+                if isinstance(v, ast.UnaryOp) and isinstance(v.op, ast.Not) and isinstance(v.operand, ast.Name):
+                    flag = v.operand.id
+                elif isinstance(v, ast.Compare) and len(v.ops) == 1 and isinstance(v.ops[0], ast.Lt) and isinstance(v.left, ast.Name):
+                    cnt, bound = v.left.id, v.comparators[0]
+                elif isinstance(v, ast.Compare) and len(v.ops) == 1 and isinstance(v.ops[0], ast.Gt) and isinstance(v.comparators[0], ast.Name):
+                    cnt, bound = v.comparators[0].id, v.left
+            if flag is None or cnt is None or not int_bound(fn, bound):
+                continue
+            # initialisations in this block before the loop, nothing else binding them in between
+            def init_of(name, want):
+                hits = [s_ for s_ in block[:k] if isinstance(s_, ast.Assign) and len(s_.targets) == 1 and isinstance(s_.targets[0], ast.Name) and s_.targets[0].id == name]
+                return len(hits) == 1 and isinstance(hits[0].value, ast.Constant) and hits[0].value.value is want if isinstance(want, bool) else \
+                    len(hits) == 1 and isinstance(hits[0].value, ast.Constant) and type(hits[0].value.value) is int and hits[0].value.value == want
+            if not (init_of(flag, False) and init_of(cnt, 0)):
+                continue
+            # counter: exactly one `cnt += 1` as the first statement of the body, no other store
+            first = lp.body[0]
+            if not (isinstance(first, ast.AugAssign) and isinstance(first.target, ast.Name) and first.target.id == cnt and isinstance(first.op, ast.Add)
+                    and isinstance(first.value, ast.Constant) and first.value.value == 1 and type(first.value.value) is int):
+                continue
+            if len(stores(fn, cnt)) != 2:
+                continue
+            # flag: `flag = True` only in tail position of the loop body
+            tl = tails(lp.body)
+            sites = [(b, i) for b, i in tl if isinstance(b[i], ast.Assign) and len(b[i].targets) == 1 and isinstance(b[i].targets[0], ast.Name) and b[i].targets[0].id == flag
+                     and isinstance(b[i].value, ast.Constant) and b[i].value.value is True]
+            if not sites or len(stores(fn, flag)) != len(sites) + 1:
+                continue
+            for b, i in sites:
+                b.insert(i + 1, ast.copy_location(ast.Break(), b[i]))
+            new = ast.copy_location(ast.For(target=ast.Name(id=f"__wk{getattr(lp, 'lineno', 0)}", ctx=ast.Store()),
+                                            iter=ast.Call(func=ast.Name(id="range", ctx=ast.Load()), args=[bound], keywords=[]),
+                                            body=lp.body, orelse=[], type_comment=None), lp)
+            block[k] = new
+            return True
+        for st in block:
+            for fld in ("body", "orelse", "finalbody"):
+                sub = getattr(st, fld, None)
+                if isinstance(sub, list) and sub and isinstance(sub[0], ast.stmt) and not isinstance(st, (ast.FunctionDef, ast.AsyncFunctionDef, ast.ClassDef)):
+                    if process(fn, sub):
+                        return True
+        return False
+    for fn in ast.walk(tree):
+        if isinstance(fn, (ast.FunctionDef, ast.AsyncFunctionDef)):
+            for _ in range(3):
+                if not process(fn, fn.body):
+                    break
+    ast.fix_missing_locations(tree)
+
+
 def _unflag_loops(tree: ast.AST) -> None:
     """single-exit loops with a flag back to early exits:
         flag = False; for ..: .. if c: flag = True; break ..      if flag: T (always leaves)  [else: F]
@@ -1209,6 +1308,7 @@ class Program:
                 _splat_literal_tuples(tree)
                 _count_loops(tree)
                 _sink_returns(tree)
+                _bounded_flag_while(tree)
                 _unflag_loops(tree)
                 mod = Module(name, path, tree, src)
                 mod.is_pkg = fn == "__init__.py"
